@@ -220,11 +220,15 @@ impl Ldap {
 //@end
 
 //@lift name=sasl_external_bind file=src/ldap.rs impl="impl\s+Ldap\s*\{" fn=sasl_external_bind
+//@ rules +R11
 //@ ret r
+//@ insert entry
+        proof { assert([0u8; 0]@ =~= Seq::<u8>::empty()); }
 //@ spec
     ensures
+        // RFC 4513 5.2.3 / RFC 4422: EXTERNAL with the empty authorization identity
         !(r matches Err(LdapError::OpSend)) ==> sent_one(*old(self), *final(self)) && sent(*final(self)).op is Single
-            && (exists|c: Seq<u8>| tree(sent(*final(self)).req) == #[trigger] spec_bind_sasl("EXTERNAL".spec_bytes(), Some(c)))
+            && tree(sent(*final(self)).req) == spec_bind_sasl("EXTERNAL".spec_bytes(), Some(Seq::<u8>::empty()))
             && sent(*final(self)).controls == old(self).controls, //# C02.sasl_external_bind_request
 //@end
 
